@@ -117,8 +117,13 @@ def sequential_traces(ctx: Ctx, rnd: random.Random, ntraces: int, maxlen: int) -
         else:
             clock = FakeClock(_mk_instant(i0), Duration.from_nanoseconds(a0))
         events.append({"op": "init", "t": t, "now": proj.t3_from_ns(i0), "auto": proj.t3_from_ns(a0)})
+        # some traces keep one real zone for all their ZonedClock reads and move the clock by whole turns of that zone's
+        # interval cache in between (the zone object is shared by everything in the process: its cache has a history)
+        trace_zone = rnd.choice(["Europe/London", "America/New_York", "Australia/Lord_Howe", "Asia/Tehran", "America/Sao_Paulo"]) if rnd.random() < 0.35 else None
         for _ in range(rnd.randint(1, maxlen)):
             c = rnd.random()
+            if trace_zone is not None:
+                c = rnd.choice([c, 0.5, 0.99])       # more cache-turn advances and zoned reads in these traces
             ev = {"t": t}
             if c < 0.35:
                 ev["op"] = "read"
@@ -137,7 +142,11 @@ def sequential_traces(ctx: Ctx, rnd: random.Random, ntraces: int, maxlen: int) -
                 per = {**proj.UNIT_PER_SEC, **proj.UNIT_PER_DAY}[unit]
                 scale = proj.NPD // (per if unit in proj.UNIT_PER_DAY else 1) if unit in proj.UNIT_PER_DAY else 10**9 // per
                 k = rnd_ns(big=True) // max(scale, 1) if rnd.random() < 0.8 else rnd.randint(-5, 5)
-                if unit == "days" and rnd.random() < 0.3:
+                if trace_zone is not None and c == 0.5:
+                    unit = "days"
+                    ev["unit"] = unit
+                    per = proj.UNIT_PER_DAY[unit]
+                if unit == "days" and (rnd.random() < 0.3 or trace_zone is not None):
                     k = rnd.choice([-2, -1, 1, 2]) * 16384     # one turn of the 512 x 32-day zone-interval cache
                 if rnd.random() < 0.03:
                     k = rnd.choice([-1, 1]) * 10 ** rnd.randint(25, 40)
@@ -175,13 +184,13 @@ def sequential_traces(ctx: Ctx, rnd: random.Random, ntraces: int, maxlen: int) -
                 off = rnd.choice([0, 3600, -3600, 64800, -64800, 19800, rnd.randint(-64800, 64800)])
                 cal = rnd.choice(list(CalendarSystem.ids))
                 zone = DateTimeZone.for_offset(Offset.from_seconds(off))
-                if rnd.random() < 0.4:
+                if trace_zone is not None or rnd.random() < 0.2:
                     # a real zone: the offset is the one the zone has at the instant the wrapped clock is about to return; the
                     # reference is the zone underneath the provider's interval cache (the cache has its own history)
                     from pyoda_time import DateTimeZoneProviders
                     from harness.drivers.zonewalk import t3i as _t3i
 
-                    zone = DateTimeZoneProviders.tzdb[rnd.choice(["Europe/London", "America/New_York", "Australia/Lord_Howe", "Asia/Tehran", "America/Sao_Paulo"])]
+                    zone = DateTimeZoneProviders.tzdb[trace_zone or rnd.choice(["Europe/London", "America/New_York", "Australia/Lord_Howe", "Asia/Tehran", "America/Sao_Paulo"])]
                     try:
                         nowi = getattr(clock, "_FakeClock__now")
                         riv = getattr(zone, "_CachedDateTimeZone__time_zone", zone).get_zone_interval(nowi)
